@@ -18,6 +18,7 @@ import (
 	"github.com/sarchlab/akita/v4/mem/vm"
 	"github.com/sarchlab/akita/v4/sim"
 	"github.com/sarchlab/mgpusim/v4/amd/driver"
+	"github.com/sarchlab/mgpusim/v4/amd/protocol"
 	pmcpkg "github.com/sarchlab/mgpusim/v4/amd/timing/pagemigrationcontroller"
 
 	"verifharness/vh"
@@ -1059,6 +1060,498 @@ func (c *DCase) monitor() string {
 	return ""
 }
 
+// ---- driver handshake: drain - shootdown - migrate - restart ----
+
+type HCmd struct {
+	Kind   string   `json:"kind"` // Drain Shoot Mig Restart RdmaRestart
+	G      uint64   `json:"g"`
+	VAddrs []uint64 `json:"vaddrs"`
+	PID    uint64   `json:"pid"`
+	Host   uint64   `json:"host"`
+	Size   uint64   `json:"size"`
+	VAddr  uint64   `json:"vaddr"`
+}
+
+type HReq struct {
+	Src       uint64     `json:"src"`
+	Accessing []uint64   `json:"accessing"`
+	Groups    [][]uint64 `json:"groups"` // [gpu, pages...]
+	Host      uint64     `json:"host"`
+	PID       uint64     `json:"pid"`
+	PageSize  uint64     `json:"pagesize"`
+	Top       bool       `json:"top"`
+}
+
+type HEvent struct {
+	E   string `json:"e"` // tick dm tm tg dg
+	Req *HReq  `json:"req,omitempty"`
+	Rsp string `json:"rsp,omitempty"` // Drain Shoot Mig Restart RdmaRestart
+	G   uint64 `json:"g"`
+	// observation
+	Acc    *bool     `json:"acc,omitempty"`
+	Cmd    *HCmd     `json:"cmd,omitempty"`
+	None   bool      `json:"none,omitempty"`
+	MDst   uint64    `json:"mdst"`
+	MVAddr []uint64  `json:"mvaddr,omitempty"`
+	MTop   bool      `json:"mtop"`
+	MGot   bool      `json:"mgot"`
+	Crash  bool      `json:"crash,omitempty"`
+}
+
+type HCase struct {
+	NGPU   int      `json:"ngpu"`
+	Events []HEvent `json:"events"`
+	Viol   string   `json:"viol"`
+	Coq    string   `json:"coq"`
+	Done   int      `json:"done"`
+	Reqs   int      `json:"reqs"`
+	Pages  int      `json:"pages"`
+}
+
+func (c *HCmd) Coq() string {
+	switch c.Kind {
+	case "Drain":
+		return fmt.Sprintf("(CDrain %d)", c.G)
+	case "Shoot":
+		return fmt.Sprintf("(CShoot %d %s %d)", c.G, vh.CoqNList(c.VAddrs), c.PID)
+	case "Mig":
+		return fmt.Sprintf("(CMig %d %d %d %d)", c.G, c.Host, c.Size, c.VAddr)
+	case "Restart":
+		return fmt.Sprintf("(CRestart %d)", c.G)
+	case "RdmaRestart":
+		return fmt.Sprintf("(CRdmaRestart %d)", c.G)
+	}
+	return "(CDrain 999999)"
+}
+
+func (q *HReq) Coq() string {
+	gs := make([]string, len(q.Groups))
+	for i, g := range q.Groups {
+		gs[i] = fmt.Sprintf("(%d, %s)", g[0], vh.CoqNList(g[1:]))
+	}
+	return fmt.Sprintf("(mkMReq %d %s [%s] %d %d %d %s)", q.Src, vh.CoqNList(q.Accessing), strings.Join(gs, "; "),
+		q.Host, q.PID, q.PageSize, vh.CoqBool(q.Top))
+}
+
+func (e *HEvent) Coq() string {
+	var ev, ob string
+	switch e.E {
+	case "tick":
+		ev, ob = "HTick", "HNone"
+	case "dm":
+		ev = "HDeliverMMU " + e.Req.Coq()
+	case "tm":
+		ev = "HTakeMMU"
+		if e.MGot {
+			ob = fmt.Sprintf("HRsp (Some (mkMRsp %d %s %s))", e.MDst, vh.CoqNList(e.MVAddr), vh.CoqBool(e.MTop))
+		} else {
+			ob = "HRsp None"
+		}
+	case "tg":
+		ev = "HTakeGPU"
+		if e.Cmd != nil {
+			ob = "HCmd (Some " + e.Cmd.Coq() + ")"
+		} else {
+			ob = "HCmd None"
+		}
+	case "dg":
+		ev = "HDeliverGPU R" + e.Rsp
+	}
+	if e.Acc != nil {
+		ob = "HAcc " + vh.CoqBool(*e.Acc)
+	}
+	if e.Crash {
+		ob = "HCrash"
+	}
+	return "(" + ev + ", " + ob + ")"
+}
+
+type hrunner struct {
+	d       *driver.Driver
+	pt      vm.PageTable
+	gpuPort sim.Port
+	mmuPort sim.Port
+	cps     []sim.Port
+	pmcs    []sim.Port
+	ngpu    int
+	// taken commands not yet answered, per kind
+	outst map[string][]uint64
+	// monitor
+	accepted                                  []*HReq
+	curIdx                                    int
+	cur                                       *HReq
+	nDrainR, nShootR, nMigR, nRestartR, nRdma int
+	takenMig                                  int
+	migAllDone                                int
+	oldPAddr                                  map[uint64]uint64
+	viol                                      string
+	done                                      int
+}
+
+// startReq: the driver can only begin the next accepted request once the
+// previous handshake is complete; the page table is stable at that moment
+func (r *hrunner) startReq() {
+	r.cur = nil
+	if r.curIdx >= len(r.accepted) {
+		return
+	}
+	q := r.accepted[r.curIdx]
+	r.cur = q
+	r.nDrainR, r.nShootR, r.nMigR, r.nRestartR, r.nRdma, r.takenMig = 0, 0, 0, 0, 0, 0
+	r.oldPAddr = map[uint64]uint64{}
+	for _, g := range q.Groups {
+		for _, va := range g[1:] {
+			if pg, found := r.pt.Find(vm.PID(q.PID), va); found {
+				r.oldPAddr[va] = pg.PAddr
+			}
+		}
+	}
+}
+
+func (r *hrunner) flag(s string) {
+	if r.viol == "" {
+		r.viol = s
+	}
+}
+
+func (r *hrunner) gpuIndex(p sim.RemotePort) uint64 {
+	for i, c := range r.cps {
+		if c.AsRemote() == p {
+			return uint64(i)
+		}
+	}
+	return 999999
+}
+
+func (r *hrunner) canonCmd(m sim.Msg) *HCmd {
+	c := &HCmd{G: r.gpuIndex(m.Meta().Dst), VAddrs: []uint64{}}
+	switch x := m.(type) {
+	case *protocol.RDMADrainCmdFromDriver:
+		c.Kind = "Drain"
+	case *protocol.ShootDownCommand:
+		c.Kind = "Shoot"
+		c.VAddrs = append([]uint64{}, x.VAddr...)
+		c.PID = uint64(x.PID)
+	case *protocol.PageMigrationReqToCP:
+		c.Kind = "Mig"
+		c.Size = x.PageSize
+		c.Host = 999999
+		for i, p := range r.pmcs {
+			if p == x.DestinationPMCPort {
+				c.Host = uint64(i + 1)
+			}
+		}
+		if pg, ok := r.pt.ReverseLookup(x.ToWriteToPhysicalAddress); ok {
+			c.VAddr = pg.VAddr
+			// monitor: addresses of the request
+			if pg.DeviceID != c.G+1 || !pg.IsMigrating {
+				r.flag(fmt.Sprintf("migration request to GPU %d writes to a page of device %d (migrating=%v)", c.G, pg.DeviceID, pg.IsMigrating))
+			}
+			if old, ok := r.oldPAddr[pg.VAddr]; ok && old != x.ToReadFromPhysicalAddress {
+				r.flag(fmt.Sprintf("migration request reads from %d, the page was at %d", x.ToReadFromPhysicalAddress, old))
+			}
+		} else {
+			r.flag("migration request writes to an address the page table does not know")
+		}
+	case *protocol.GPURestartReq:
+		c.Kind = "Restart"
+	case *protocol.RDMARestartCmdFromDriver:
+		c.Kind = "RdmaRestart"
+	default:
+		c.Kind = "Other"
+	}
+	return c
+}
+
+// monitor: the order clauses of C19's handshake, on what the real driver sent
+func (r *hrunner) onCmd(c *HCmd) {
+	if r.cur == nil {
+		r.flag("the driver sent " + c.Kind + " without a migration request")
+		return
+	}
+	k, m := len(r.cur.Accessing), 0
+	for _, g := range r.cur.Groups {
+		m += len(g) - 1
+	}
+	switch c.Kind {
+	case "Shoot":
+		if r.nDrainR != r.ngpu {
+			r.flag(fmt.Sprintf("shootdown sent after %d of %d drain acknowledgements", r.nDrainR, r.ngpu))
+		}
+	case "Mig":
+		if r.nDrainR != r.ngpu || r.nShootR != k {
+			r.flag(fmt.Sprintf("page request sent after %d/%d drain and %d/%d shootdown acknowledgements", r.nDrainR, r.ngpu, r.nShootR, k))
+		}
+		r.takenMig++
+		if r.takenMig-r.nMigR > 1 {
+			r.flag("two page requests in flight")
+		}
+	case "Restart":
+		if r.nMigR != m {
+			r.flag(fmt.Sprintf("GPU restart sent after %d of %d page completions", r.nMigR, m))
+		}
+	case "RdmaRestart":
+		if r.nRestartR != k {
+			r.flag(fmt.Sprintf("RDMA restart sent after %d of %d GPU restart acknowledgements", r.nRestartR, k))
+		}
+	}
+}
+
+func (r *hrunner) apply(e *HEvent) (crashed bool) {
+	defer func() {
+		if x := recover(); x != nil {
+			e.Crash = true
+			crashed = true
+		}
+	}()
+	switch e.E {
+	case "tick":
+		r.d.Tick()
+	case "dm":
+		q := e.Req
+		m := vm.NewPageMigrationReqToDriver(sim.RemotePort(fmt.Sprintf("MMU%d", q.Src)), r.mmuPort.AsRemote())
+		m.CurrAccessingGPUs = append([]uint64{}, q.Accessing...)
+		m.MigrationInfo = &vm.PageMigrationInfo{GPUReqToVAddrMap: map[uint64][]uint64{}}
+		for _, g := range q.Groups {
+			m.MigrationInfo.GPUReqToVAddrMap[g[0]] = append([]uint64{}, g[1:]...)
+		}
+		m.PID, m.CurrPageHostGPU, m.PageSize, m.RespondToTop = vm.PID(q.PID), q.Host, q.PageSize, q.Top
+		ok := r.mmuPort.Deliver(m) == nil
+		e.Acc = bp(ok)
+		if ok {
+			r.accepted = append(r.accepted, q)
+			if r.cur == nil {
+				r.startReq()
+			}
+		}
+	case "tm":
+		m := r.mmuPort.RetrieveOutgoing()
+		if m == nil {
+			break
+		}
+		x := m.(*vm.PageMigrationRspFromDriver)
+		e.MGot = true
+		fmt.Sscanf(string(x.Dst), "MMU%d", &e.MDst)
+		e.MVAddr = append([]uint64{}, x.VAddr...)
+		e.MTop = x.RspToTop
+		if r.done >= r.migAllDone {
+			r.flag("the MMU was answered before every page of the request was migrated")
+		}
+		r.done++
+	case "tg":
+		m := r.gpuPort.RetrieveOutgoing()
+		if m == nil {
+			e.None = true
+			break
+		}
+		e.Cmd = r.canonCmd(m)
+		r.onCmd(e.Cmd)
+		r.outst[e.Cmd.Kind] = append(r.outst[e.Cmd.Kind], e.Cmd.G)
+	case "dg":
+		src := r.cps[e.G]
+		var m sim.Msg
+		switch e.Rsp {
+		case "Drain":
+			m = protocol.NewRDMADrainRspToDriver(src, r.gpuPort)
+			r.nDrainR++
+		case "Shoot":
+			m = protocol.NewShootdownCompleteRsp(src, r.gpuPort)
+			r.nShootR++
+		case "Mig":
+			m = protocol.NewPageMigrationRspToDriver(src, r.gpuPort)
+			r.nMigR++
+			if r.cur != nil {
+				mm := 0
+				for _, g := range r.cur.Groups {
+					mm += len(g) - 1
+				}
+				if r.nMigR == mm {
+					r.migAllDone++
+				}
+			}
+		case "Restart":
+			m = protocol.NewGPURestartRsp(src, r.gpuPort)
+			r.nRestartR++
+		case "RdmaRestart":
+			m = protocol.NewRDMARestartRspToDriver(src, r.gpuPort)
+			r.nRdma++
+			if r.nRdma == r.ngpu {
+				r.curIdx++
+				r.startReq()
+			}
+		}
+		e.Acc = bp(r.gpuPort.Deliver(m) == nil)
+	}
+	return false
+}
+
+func genHandshake(rng *vh.Rng) HCase {
+	const log2 = 12
+	engine := sim.NewSerialEngine()
+	pt := vm.NewPageTable(log2)
+	d := driver.MakeBuilder().WithEngine(engine).WithPageTable(pt).WithLog2PageSize(log2).Build("Driver")
+	ngpu := 2 + rng.Intn(3)
+	r := &hrunner{d: d, pt: pt, ngpu: ngpu, outst: map[string][]uint64{}}
+	conn := &vh.StubConn{}
+	r.gpuPort = d.GetPortByName("GPU")
+	r.mmuPort = d.GetPortByName("MMU")
+	conn.PlugIn(r.gpuPort)
+	conn.PlugIn(r.mmuPort)
+	for g := 0; g < ngpu; g++ {
+		cp := sim.NewPort(nil, 1, 1, fmt.Sprintf("GPU%d.CP", g+1))
+		pmc := sim.NewPort(nil, 1, 1, fmt.Sprintf("GPU%d.PMC", g+1))
+		r.cps, r.pmcs = append(r.cps, cp), append(r.pmcs, pmc)
+		d.RegisterGPU(cp, driver.DeviceProperties{CUCount: 4, DRAMSize: 64 << log2})
+		d.RemotePMCPorts = append(d.RemotePMCPorts, pmc)
+	}
+	ctx := d.Init()
+	pid := uint64(ctx.VerifPID())
+	// pages per device
+	onDev := map[int][]uint64{}
+	for g := 1; g <= ngpu; g++ {
+		d.SelectGPU(ctx, g)
+		n := uint64(2 + rng.Intn(3))
+		ptr := d.AllocateMemory(ctx, n<<log2)
+		for i := uint64(0); i < n; i++ {
+			onDev[g] = append(onDev[g], uint64(ptr)+i<<log2)
+		}
+	}
+	c := HCase{NGPU: ngpu}
+	nreq := 1 + rng.Intn(3)
+	var reqs []*HReq
+	for j := 0; j < nreq; j++ {
+		host := 1 + rng.Intn(ngpu)
+		if len(onDev[host]) == 0 {
+			continue
+		}
+		to := 1 + rng.Intn(ngpu)
+		if to == host {
+			to = 1 + host%ngpu
+		}
+		np := 1 + rng.Intn(len(onDev[host]))
+		pages := append([]uint64{}, onDev[host][:np]...)
+		onDev[host] = onDev[host][np:]
+		onDev[to] = append(onDev[to], pages...)
+		var acc []uint64
+		for g := 1; g <= ngpu; g++ {
+			if rng.Intn(3) > 0 {
+				acc = append(acc, uint64(g))
+			}
+		}
+		if len(acc) == 0 {
+			acc = []uint64{uint64(host)}
+		}
+		// the controller shuffles nothing: order as given
+		if rng.Bool() {
+			for i := len(acc) - 1; i > 0; i-- {
+				k := rng.Intn(i + 1)
+				acc[i], acc[k] = acc[k], acc[i]
+			}
+		}
+		reqs = append(reqs, &HReq{Src: uint64(50 + j), Accessing: acc, Groups: [][]uint64{append([]uint64{uint64(to)}, pages...)},
+			Host: uint64(host), PID: pid, PageSize: 1 << log2, Top: rng.Bool()})
+		c.Pages += np
+	}
+	c.Reqs = len(reqs)
+	next := 0
+	crashed := false
+	run := func(e HEvent) HEvent {
+		if crashed {
+			return e
+		}
+		crashed = r.apply(&e)
+		c.Events = append(c.Events, e)
+		return e
+	}
+	answer := func(kind string) bool {
+		l := r.outst[kind]
+		if len(l) == 0 {
+			return false
+		}
+		k := rng.Intn(len(l))
+		g := l[k]
+		r.outst[kind] = append(append([]uint64{}, l[:k]...), l[k+1:]...)
+		run(HEvent{E: "dg", Rsp: kind, G: g})
+		return true
+	}
+	kinds := []string{"Drain", "Shoot", "Mig", "Restart", "RdmaRestart"}
+	wt := []int{1 + rng.Intn(10), 1 + rng.Intn(5), 1 + rng.Intn(5), 1 + rng.Intn(10), 1 + rng.Intn(10)}
+	for i := 0; i < 150+80*c.Pages && !crashed; i++ {
+		switch rng.Pick(wt...) {
+		case 0:
+			run(HEvent{E: "tick"})
+		case 1:
+			if next < len(reqs) {
+				if e := run(HEvent{E: "dm", Req: reqs[next]}); e.Acc != nil && *e.Acc {
+					next++
+				}
+			}
+		case 2:
+			run(HEvent{E: "tm"})
+		case 3:
+			run(HEvent{E: "tg"})
+		case 4:
+			answer(kinds[rng.Intn(len(kinds))])
+		}
+	}
+	// drain
+	for round := 0; round < 400 && !crashed; round++ {
+		busy := false
+		if next < len(reqs) && r.mmuPort.PeekIncoming() == nil {
+			if e := run(HEvent{E: "dm", Req: reqs[next]}); e.Acc != nil && *e.Acc {
+				next++
+				busy = true
+			}
+		}
+		// Tick's return value is not a reliable progress signal
+		// (processShootdownCompleteRsp reports false after consuming a message)
+		if r.gpuPort.PeekIncoming() != nil || r.mmuPort.PeekIncoming() != nil {
+			busy = true
+		}
+		if r.d.Tick() {
+			busy = true
+		}
+		c.Events = append(c.Events, HEvent{E: "tick"})
+		for r.gpuPort.PeekOutgoing() != nil && !crashed {
+			run(HEvent{E: "tg"})
+			busy = true
+		}
+		for _, k := range kinds {
+			for answer(k) {
+				busy = true
+			}
+		}
+		if r.mmuPort.PeekOutgoing() != nil {
+			run(HEvent{E: "tm"})
+			busy = true
+		}
+		if !busy {
+			break
+		}
+	}
+	if crashed {
+		r.flag("the driver panicked during a well-formed migration handshake")
+	} else if r.done != len(reqs) {
+		r.flag(fmt.Sprintf("%d migration requests, %d answers to the MMU after the system went quiet", len(reqs), r.done))
+	}
+	c.Done = r.done
+	c.Viol = r.viol
+	items := make([]string, len(c.Events))
+	for i := range c.Events {
+		items[i] = c.Events[i].Coq()
+	}
+	var parts []string
+	for i := 0; i < len(items); i += 300 {
+		j := i + 300
+		if j > len(items) {
+			j = len(items)
+		}
+		parts = append(parts, "["+strings.Join(items[i:j], ";\n  ")+"]")
+	}
+	c.Coq = fmt.Sprintf("mkHCase %d (List.concat [%s])", ngpu, strings.Join(parts, ";\n "))
+	return c
+}
+
 func whoCoq(w int) string {
 	if w == 0 {
 		return "PA"
@@ -1132,9 +1625,23 @@ func main() {
 	rep := flag.String("replay", "", "JSON file with cases to replay")
 	drvN := flag.Int("drv-n", 0, "number of driver scenarios (preparePageForMigration)")
 	drvOut := flag.String("drv-out", "", "output JSON file for the driver cases")
+	hsN := flag.Int("hs-n", 0, "number of driver handshake scenarios")
+	hsOut := flag.String("hs-out", "", "output JSON file for the handshake cases")
 	flag.Parse()
 	log.SetOutput(io.Discard) // the controllers log before they panic
 
+	if *hsOut != "" {
+		rng := vh.NewRng(*seed ^ 0xabcd)
+		hcs := []HCase{}
+		for i := 0; i < *hsN; i++ {
+			hcs = append(hcs, genHandshake(rng.Fork()))
+		}
+		data, _ := json.Marshal(hcs)
+		if err := os.WriteFile(*hsOut, data, 0o644); err != nil {
+			panic(err)
+		}
+		return
+	}
 	if *drvOut != "" {
 		rng := vh.NewRng(*seed ^ 0x5eed)
 		dcs := []DCase{}
